@@ -1,5 +1,6 @@
 import JunoModel.Common.Proto
 import JunoModel.C05.Model
+import JunoModel.C05.ModelSvc
 import Std.Data.HashMap
 /-! Line-protocol driver for the C05 model (`lake build c05drv`).
 
@@ -20,6 +21,10 @@ after that write):
 * `l1event <l1> <R> F`   `Pruner.onNewL1Head(l1)` of a pruner with numRetainedBlocks = R: raises the
                          shared retention floor, then `PruneUpto(l1-R)` (a sixth `cfg` flag w = 1: the
                          node is wired as node.New does — floor shared and seeded at process start)
+* `l2events <R> <per> <n1,n2,…> F`   a NEW `Pruner` (numRetainedBlocks R, l2HeadsPerPrune per, counter 0)
+                         receives these L2-head events one after the other (`Pruner.onNewBlock`: guards,
+                         stale-event check, counter, `pruneUpto(num-R)`); the fault hits the first event
+                         that prunes (`l2Burst`)
 * `pfloor`               the in-memory retention floor (`-` = unseeded)
 * `served <k>`           does `StateAtBlockNumber(k)` hand out a reader (`y` / `n`)
 * `basecheck`  compares the closed-form base image with the fold of the model's own store writes
@@ -302,6 +307,12 @@ def step (s : DState) (line : String) : DState × String :=
       let (pn, o) := pexec true s.W s.fx ⟨s.node, s.floor, s.wired⟩ (.l1event l1 r) ft
       ({ s with node := pn.node, floor := pn.floor }, outStr o)
     | _, _, _ => (s, "bad-op")
+  | ["l2events", r, per, nums, f] =>
+    match parseNat? r, parseNat? per, parseList? nums, parseFault? f with
+    | some r, some per, some nums, some ft =>
+      let (pn, o) := l2Burst s.W s.fx r per nums ⟨s.node, s.floor, s.wired⟩ 0 ft .ok
+      ({ s with node := pn.node, floor := pn.floor }, outStr o)
+    | _, _, _, _ => (s, "bad-op")
   | ["pfloor"] => (s, optNat s.floor)
   | ["served", k] =>
     match parseNat? k with
